@@ -86,6 +86,14 @@ F64Nearest(v) == IF Le(Abs(v), TwoTo53) THEN v
 DurF64(D) == Dur10(F64Nearest(D.y), F64Nearest(D.mo), F64Nearest(D.w), F64Nearest(D.d), F64Nearest(D.h), F64Nearest(D.mi),
                    F64Nearest(D.s), F64Nearest(D.ms), F64Nearest(D.us), F64Nearest(D.ns))
 
+\* RoundNumberToIncrementAsIfPositive (used for instants): the mode is applied as for a positive number whatever the sign,
+\* i.e. trunc = floor and expand = ceil on the epoch line; halfEven looks at the parity of the floor quotient.
+RoundBigAsIfPositive(x, n, mode) ==
+  LET dm == FloorDivMod(x, n)
+  IN IF IsZero(dm.r) THEN x
+     ELSE LET up == Up(FALSE, Parity(dm.q) = 0, Cmp(MulSmall(dm.r, 2), n), mode)
+          IN Mul(n, IF up THEN Add(dm.q, FromInt(1)) ELSE dm.q)
+
 \* class label of a rounding situation (used for known-finding keys and for instantiating cases)
 RoundCls(x, n) ==
   LET dm == FloorDivMod(x, n)   c == Cmp(MulSmall(dm.r, 2), n)
